@@ -17,6 +17,27 @@ SITES = {
         "conn.go notify (alert left unencrypted until the handshake completes, header epoch of the handshake keys)",
     "completes-across-empty-intersection:alpn":
         "internal/flight/flight13/flight4handler.go flight4Generate (ALPN never negotiated on DTLS 1.3)",
+    "alpn-outside-policy":
+        "internal/flight/flight12/flight3handler.go flight3Parse (ALPNSelection of the ServerHello accepted without consulting "
+        "SupportedProtocols)",
+    "group-outside-policy":
+        "internal/flight/flight12/flight3handler.go handleServerKeyExchange (ECDHE on the ServerKeyExchange's curve without "
+        "consulting EllipticCurves)",
+    "first-hello-rewrite-changes-the-association":
+        "internal/flight/flight12/flight0handler.go flight0Parse / flight2handler.go flight2Parse (extension-driven choices "
+        "taken from the cookie-less ClientHello, which no Finished covers)",
+    "suite-does-not-fit-presented-certificate":
+        "conn.go HandshakeContext (filterCipherSuitesForCertificate with GetCertificate(&ClientHelloInfo{})) vs "
+        "flight12/flight4handler.go flight4Generate GetCertificate(ServerName)",
+    "refused-although-suite-fits-sni-certificate":
+        "conn.go HandshakeContext (filterCipherSuitesForCertificate with GetCertificate(&ClientHelloInfo{})) vs "
+        "flight12/flight4handler.go flight4Generate GetCertificate(ServerName)",
+    "ems-required-but-resumed-session-negotiated-without-ems":
+        "internal/flight/flight12/flight0handler.go handleHelloResume / flight3handler.go handleResumption "
+        "(Session{ID, Secret} carries no extended-master-secret flag)",
+    "version-downgrade-through-first-client-hello":
+        "conn.go pickVersionFromClientHello / negotiateVersionClient (supported_versions of the first ClientHello is "
+        "unauthenticated; no downgrade sentinel in ServerHello.random)",
     "client-signature-scheme-outside-policy":
         "internal/flight/flight12/flight5handler.go flight5Generate / flight13/flight5handler.go "
         "(SelectSignatureScheme over the server's list only)",
@@ -30,7 +51,8 @@ def case_monitors(c):
     """the property's own predicate on one observed association: list of (monitor, text)"""
     if not c11lib.both_built(c):
         return []
-    out = list(c11lib.monitor_in_policy(c)) + list(c11lib.monitor_unsolicited(c))
+    out = list(c11lib.monitor_in_policy(c)) + list(c11lib.monitor_unsolicited(c)) + \
+        list(c11lib.monitor_ems_resumption(c)) + list(c11lib.monitor_sni_refusal(c))
     dims = c11lib.empty_dimensions(c)
     if c11lib.both_ok(c):
         for d in dims:
@@ -47,12 +69,13 @@ def case_monitors(c):
 
 
 def key_of(c):
-    return json.dumps([c["c"], c["s"], c["resume"]], sort_keys=True)
+    return json.dumps([c["c"], c["s"], c["resume"], c.get("steer"), (c.get("seed") or {}).get("c"), (c.get("seed") or {}).get("s")],
+                      sort_keys=True)
 
 
 def nondefault(d):
     return any(d[k] for k in ("min", "max", "suites_set", "psk", "key", "client_auth", "curves", "sigs", "csigs", "ems",
-                              "srtp", "alpn", "store", "skip_hv")) or d["cid"] >= 0
+                              "srtp", "alpn", "store", "skip_hv")) or d["cid"] >= 0 or d.get("key2") or d.get("sni")
 
 
 def run(chk):
@@ -60,7 +83,8 @@ def run(chk):
     env = {"VERIF_SEED": chk.seed, "VERIF_TIER": chk.tier}
     legs = []
     found_input = False
-    for leg, test, timeout in (("regress", "^TestVerifC11Regress$", 900), ("pairs", "^TestVerifC11$", 3000)):
+    for leg, test, timeout in (("regress", "^TestVerifC11Regress$", 900), ("steer", "^TestVerifC11Steer$", 1800),
+                               ("pairs", "^TestVerifC11$", 3000)):
         out = vlib.out_path("c11" + leg)
         rc, o = vlib.go_test(".", test, dict(env, VERIF_OUT=out), tags=["c11"], timeout=timeout)
         cases = vlib.read_jsonl(out)
@@ -92,10 +116,31 @@ def run(chk):
                                     "perfect scripted network in a synctest bubble (150 s of virtual time)",
                              "case": c11lib.slim_case(c)})
 
+    # steered leg: an association whose first ClientHello was rewritten must come out as its untouched twin
+    steer_cases = [cs for leg, cs in legs if leg == "steer"]
+    steer_cases = steer_cases[0] if steer_cases else []
+    twins = {c["id"]: c for c in steer_cases if c["gen"].endswith(":untouched")}
+    for c in steer_cases:
+        if c["gen"].endswith(":untouched") or c["id"] not in twins or c["s"]["skip_hv"]:
+            continue
+        for mon, text in c11lib.monitor_first_hello(c, twins[c["id"]]):
+            fired[mon] = fired.get(mon, 0) + 1
+            if mon in reported:
+                continue
+            reported[mon] = c
+            found_input = True
+            chk.finding(SITES.get(mon, DEFAULT_SITE), {"monitor": mon},
+                        "%s [client %s / server %s]" % (text, json.dumps(c11lib.slim_cfg(c["c"])), json.dumps(c11lib.slim_cfg(c["s"]))),
+                        {"how": "DTLS 1.2 with hello verification; an on-path party rewrites only the first (cookie-less) "
+                                "ClientHello; compared with the same pair left alone",
+                         "case": c11lib.slim_case(c), "untouched": c11lib.slim_case(twins[c["id"]])})
+
     # ---- model / implementation comparison inside Coq
     allc = [c for _, cases in legs for c in cases]
-    comparable = [c for c in allc if not (c11lib.both_built(c) and not c11lib.both_ok(c) and c11lib.failure_shape(c)
-                                          and c11lib.defect_pattern(c) in UNMODELLED)]
+    comparable = [c for c in allc if not c11lib.steered(c) and
+                  not (c11lib.both_built(c) and not c11lib.both_ok(c) and c11lib.failure_shape(c)
+                       and c11lib.defect_pattern(c) in UNMODELLED)]
+    comparable_steered = [c for c in allc if c11lib.steered(c) and c11lib.steer_modelled(c)]
     ok_model, mout = vlib.coq_make(["theories/Neg/C11Run.vo"])
     if not ok_model:
         chk.broken("model Neg/C11Run.v no longer compiles", mout)
@@ -117,6 +162,21 @@ def run(chk):
                              "mismatching": len(bad)},
                             no_input=(not mons and not found_input))
 
+        if comparable_steered:
+            terms = [c11lib.steer_case_term(c) for c in comparable_steered]
+            bad, err = vlib.coq_mismatches("c11s", c11lib.IMPORTS, "c11s_case", "c11s_ok", terms, shard=80)
+            if bad is None:
+                chk.broken("correspondence evaluation failed in coqc (Neg/C11Run.v c11s_ok)", err)
+            else:
+                for i in bad[:1]:
+                    c = comparable_steered[i]
+                    mons = case_monitors(c)
+                    chk.finding(DEFAULT_SITE, {"monitor": "model-mismatch-steered", "observed": list(c11lib.obs_class(c))},
+                                "steered association differs from Neg/C11Negotiate.v negotiate_steered: observed class %s%s" % (
+                                    c11lib.obs_class(c), (": " + mons[0][1]) if mons else ""),
+                                {"case": c11lib.slim_case(c), "correspondence": "Neg.C11Run.c11s_ok", "mismatching": len(bad)},
+                                no_input=(not mons and not found_input))
+
     # ---- coverage
     for leg, cases in legs:
         sub = {"pairs": [c for c in cases if c["gen"] != "lattice"], "lattice": [c for c in cases if c["gen"] == "lattice"]} \
@@ -137,9 +197,9 @@ def run(chk):
                     vk = "%s x %s" % (c11lib.allowed_versions(c["c"]), c11lib.allowed_versions(c["s"]))
                     vers[vk] = vers.get(vk, 0) + 1
             chk.leg_info(name, result_classes=classes, generators=gens, version_ranges=vers)
-    chk.cov["traces_validated_against_impl"] = len(comparable)
+    chk.cov["traces_validated_against_impl"] = len(comparable) + len(comparable_steered)
     chk.leg_info("pairs", monitors_fired=fired,
-                 not_compared_with_model=len(allc) - len(comparable),
+                 not_compared_with_model=len(allc) - len(comparable) - len(comparable_steered),
                  generator="62% compatible pairs, 28% one dimension emptied (version, suite, authentication mode, curve, "
                            "signature scheme, EMS, SRTP, ALPN, key type), 10% independent draws; quick tier adds a seeded "
                            "sample of the 2^14 lattice, thorough the whole lattice")
@@ -154,9 +214,17 @@ def run(chk):
              "generators x hello-verify x session store/resumption x MTU); per association: result class per side, alerts on "
              "the wire, every field of both ConnectionState()s, SRTP accessors, in-package version/EMS/CIDs/group, captured "
              "ClientHello/ServerHello/ServerKeyExchange/CertificateVerify, 3 exporters, 2 payloads each way; compared with "
-             "`negotiate` evaluated by vm_compute and checked by model-independent monitors. Non-trivial = both endpoints "
+             "`negotiate` evaluated by vm_compute and checked by model-independent monitors. Steered leg "
+             "(TestVerifC11Steer): a rogue server (ServerHello hook naming an ALPN protocol), an on-path rewriter of the "
+             "first, cookie-less ClientHello (supported_groups, ALPN, extended_master_secret, server_name, "
+             "supported_versions) - each run next to its untouched twin and compared with `negotiate_steered` -, servers "
+             "with two certificates selected by SNI, sessions resumed under another EMS policy than they were stored "
+             "under (master secrets compared in-package). Non-trivial = both endpoints "
              "built and at least one non-default option; distinct by (client set, server set, resumption).",
-        assumptions=["both endpoints are pion/dtls (the quantifier of C11 is over configurations of the two endpoints)",
+        assumptions=["both endpoints are pion/dtls (the quantifier of C11 is over configurations of the two endpoints); the steered "
+                     "leg additionally holds the CLIENT to its own lists against a rogue ServerHello / ServerKeyExchange and lets "
+                     "an on-path party rewrite only what no Finished message covers (the first ClientHello under hello "
+                     "verification); rewriting the only ClientHello when the cookie exchange is off is C04's subject",
                      "negotiation is modelled on the final ClientHello and the server's answer; loss/reordering is C02/C01",
                      "a client that configures BOTH a PSK and a certificate is outside the generator (it cannot complete a "
                      "certificate handshake: flight3Parse takes the PSK path)",
